@@ -202,9 +202,13 @@ class HypersphereART(BaseART):
         i_radius = cache["i_radius"]
 
         radius_new = radius + (params["beta"] / 2) * (max_radius - radius)
-        centroid_new = centroid + (params["beta"] / 2) * (i - centroid) * (
-            1 - (min(radius, i_radius) / i_radius)
-        )
+        if i_radius > 0:
+            centroid_new = centroid + (params["beta"] / 2) * (i - centroid) * (
+                1 - (min(radius, i_radius) / i_radius)
+            )
+        else:
+            # the sample coincides with the centroid: nothing to move towards
+            centroid_new = centroid
 
         return np.concatenate([centroid_new, [radius_new]])
 
